@@ -3,6 +3,7 @@
 import collections
 import contextlib
 import ctypes
+import functools
 import os
 import signal
 import subprocess
@@ -37,6 +38,23 @@ _jobs_thread_local = threading.local()
 # The use_main_jobs context manager uses this variable to access the tasks on
 # the main thread.
 _tasks_main: collections.deque[int] = collections.deque()
+
+# Serialises structural changes of the job table. Threadable aliases (jobs, bg,
+# disown via use_main_jobs) work on the main thread's table while the main
+# thread itself adds, purges and looks up jobs (e.g. ``jobs | cat``: the main
+# thread sits in wait_for_active_job() -> get_next_task()); unsynchronised,
+# that ends in "deque mutated during iteration", KeyError or a lost job.
+# Re-entrant because the SIGHUP handler may purge jobs on the main thread.
+_jobs_lock = threading.RLock()
+
+
+def _with_jobs_lock(f):
+    @functools.wraps(f)
+    def wrapper(*args, **kwargs):
+        with _jobs_lock:
+            return f(*args, **kwargs)
+
+    return wrapper
 
 
 def proc_untraced_waitpid(proc, hang, task=None, raise_child_process_error=False):
@@ -396,6 +414,7 @@ def _safe_wait_for_active_job(last_task=None, backgrounded=False):
     return rtn
 
 
+@_with_jobs_lock
 def get_next_task():
     """Get the next active task and put it on top of the queue"""
     tasks = get_tasks()
@@ -417,6 +436,7 @@ def get_task(tid):
     return get_jobs()[tid]
 
 
+@_with_jobs_lock
 def _clear_dead_jobs():
     to_remove = set()
     tasks = get_tasks()
@@ -481,6 +501,7 @@ def print_one_job(num, outfile=sys.stdout, format="dict"):
         print(info, file=outfile)
 
 
+@_with_jobs_lock
 def get_next_job_number():
     """Get the lowest available unique job number (for the next job created)."""
     _clear_dead_jobs()
@@ -490,6 +511,7 @@ def get_next_job_number():
     return i
 
 
+@_with_jobs_lock
 def add_job(info):
     """Add a new job to the jobs dictionary."""
     num = get_next_job_number()
@@ -505,6 +527,7 @@ def add_job(info):
         print_one_job(num)
 
 
+@_with_jobs_lock
 def update_job_attr(pid, name, value):
     """Update job attribute."""
     jobs = get_jobs()
@@ -580,6 +603,7 @@ def hup_all_jobs():
 
 
 @use_main_jobs()
+@_with_jobs_lock
 def jobs(args, stdin=None, stdout=sys.stdout, stderr=None):
     """
     xonsh command: jobs
@@ -597,6 +621,17 @@ def resume_job(args, wording: tp.Literal["fg", "bg"]):
     """
     used by fg and bg to resume a job either in the foreground or in the background.
     """
+    selected = _select_job_to_resume(args, wording)
+    if not isinstance(selected, dict):
+        return selected  # (out, err) error tuple
+    # resume outside the lock: for ``fg`` this blocks until the job stops
+    selected["pipeline"].resume(selected, tee_output=(wording == "fg"))
+
+
+@_with_jobs_lock
+def _select_job_to_resume(args, wording):
+    """Pick the job for fg/bg and move it to the front; returns the job
+    or an ``(out, err)`` tuple."""
     _clear_dead_jobs()
     tasks = get_tasks()
     if len(tasks) == 0:
@@ -629,10 +664,7 @@ def resume_job(args, wording: tp.Literal["fg", "bg"]):
     job["status"] = "running"
     if XSH.env.get("XONSH_INTERACTIVE"):
         print_one_job(tid)
-    pipeline = job["pipeline"]
-    pipeline.resume(
-        job, tee_output=(wording == "fg")
-    )  # do not tee output for background jobs
+    return job
 
 
 @unthreadable
@@ -656,8 +688,9 @@ def bg(args, stdin=None):
     """
     res = resume_job(args, wording="bg")
     if res is None:
-        curtask = get_task(get_tasks()[0])
-        curtask["bg"] = True
+        with _jobs_lock:
+            curtask = get_task(get_tasks()[0])
+            curtask["bg"] = True
         _continue(curtask)
     else:
         return res
@@ -670,6 +703,7 @@ def job_id_completer(xsh, **_):
 
 
 @use_main_jobs()
+@_with_jobs_lock
 def disown_fn(
     job_ids: Annotated[
         tp.Sequence[int], Arg(type=int, nargs="*", completer=job_id_completer)
